@@ -80,23 +80,45 @@ package certs
 // the canonical delta between its input and output); the accepted map is the one passed in.
 //@ pred diffCanonicalShape(diff PowerTableDiff, n mathint) = forall(k, 0, n, !deltaIsZero(diff[k]) && (k > 0 ==> diff[k-1].ParticipantID < diff[k].ParticipantID))
 
+// What applying one delta does to the table (C04 "deltas are exact"): a known participant gets the power difference
+// added and, only if a key is given, the key replaced (never by the same key, never together with a drop to zero); an
+// unknown participant is inserted with exactly the delta's power and key (positive, non-empty); an entry whose power
+// reaches zero disappears, negative power is an error; every other participant is left alone.
+//@ pred keyedByID(m map[gpbft.ActorID]gpbft.PowerEntry) = forall(gpbft.ActorID(k), has(m, k) ==> m[k].ID == k)
+
 //@ func ApplyPowerTableDiffsToMap
 //@   property C04
+//@   requires keyedByID(powerTableMap)
 //@   modifies powerTableMap[]
+//@   ensures[table_stays_keyed_by_participant] result1 == nil ==> keyedByID(result0)
+//@   at loopback 2
+//@     before[a_known_participant_gets_the_difference_added_and_the_key_replaced_only_if_given] ok ==> pe.ID == d.ParticipantID
+//@          && pe.Power == prev(powerTableMap[d.ParticipantID]).Power + d.PowerDelta
+//@          && ite(len(d.SigningKey) > 0, pe.PubKey == d.SigningKey && !bytesEq(d.SigningKey, prev(powerTableMap[d.ParticipantID]).PubKey) && pe.Power != 0, pe.PubKey == prev(powerTableMap[d.ParticipantID]).PubKey)
+//@     before[an_unknown_participant_is_inserted_with_exactly_the_deltas_power_and_key] !ok ==> pe.ID == d.ParticipantID && pe.Power == d.PowerDelta && pe.PubKey == d.SigningKey
+//@          && d.PowerDelta > 0 && len(d.SigningKey) > 0
+//@     before[lookup_is_by_the_deltas_participant] ok == prev(has(powerTableMap, d.ParticipantID))
+//@     before[zero_power_removes_the_entry_positive_power_stores_it] pe.Power >= 0 && ite(pe.Power == 0, !has(powerTableMap, d.ParticipantID), has(powerTableMap, d.ParticipantID) && powerTableMap[d.ParticipantID] == pe)
+//@     before[every_other_participant_is_left_alone] forall(gpbft.ActorID(k), k != d.ParticipantID ==> has(powerTableMap, k) == prev(has(powerTableMap, k)) && (has(powerTableMap, k) ==> powerTableMap[k] == prev(powerTableMap[k])))
 //@   ensures[accepted_deltas_are_strictly_sorted_without_empty_entries] result1 == nil ==>
 //@        forall(j, 0, len(diffs), diffCanonicalShape(diffs[j], len(diffs[j])))
 //@   ensures result1 == nil ==> result0 == powerTableMap
 //@   ensures result1 != nil ==> result0 == nil
 //@   loop 1
-//@     invariant forall(j, 0, iter, diffCanonicalShape(diffs[j], len(diffs[j])))
+//@     invariant forall(j, 0, iter, diffCanonicalShape(diffs[j], len(diffs[j]))) && keyedByID(powerTableMap)
 //@   loop 2
-//@     invariant forall(j, 0, iter1, diffCanonicalShape(diffs[j], len(diffs[j])))
+//@     invariant forall(j, 0, iter1, diffCanonicalShape(diffs[j], len(diffs[j]))) && keyedByID(powerTableMap)
 //@     invariant diffCanonicalShape(diff, iter) && (iter > 0 ==> lastActorId == diff[iter-1].ParticipantID)
 
 //@ func PowerTableArrayToMap
 //@   property C04
 //@   modifies nothing
 //@   ensures !allocated(result)
+//@   ensures[table_is_keyed_by_participant] keyedByID(result)
+//@   loop 1
+//@     invariant keyedByID(ptm)
+//@   at loopback 1
+//@     before[every_entry_is_stored_under_its_participant] has(ptm, pe.ID) && ptm[pe.ID] == pe
 
 // "malformed deltas are rejected without modifying the caller's table": nothing that existed before the call
 // changes, on every path (the work is done on a fresh map and a fresh slice).
@@ -133,3 +155,52 @@ package certs
 //@   modifies auto
 //@   maypanic
 
+
+// ---------------------------------------------------------------------------------------------------------------
+// Delta construction (C04 "deltas are exact"): one delta per participant whose power or key differs between the two
+// tables — the power difference, plus the new key only when the key changed; a participant that is new carries its
+// full power and key; a participant that disappeared carries its negated power and no key; unchanged participants
+// yield nothing; the result is sorted by participant (what application demands).
+//@ func MakePowerTableDiff
+//@   property C04 C03
+//@   modifies auto
+//@   maypanic
+//@   at loopback 1
+//@     before[old_entries_are_indexed_by_participant] has(oldPowerMap, e.ID) && oldPowerMap[e.ID] == e
+//@   at loopback 2
+//@     before[earlier_deltas_are_kept] len(diff) >= len(prev(diff)) && forall(j, 0, len(prev(diff)), diff[j] == prev(diff)[j], trigger(diff[j]))
+//@     before[a_participant_in_both_tables_yields_its_difference_or_nothing] ok && len(newEntry.PubKey) > 0 ==>
+//@          (len(diff) == len(prev(diff)) && newEntry.Power == oldEntry.Power && bytesEq(newEntry.PubKey, oldEntry.PubKey))
+//@          || (len(diff) == len(prev(diff)) + 1 && diff[len(diff)-1].ParticipantID == newEntry.ID
+//@              && diff[len(diff)-1].PowerDelta == newEntry.Power - oldEntry.Power
+//@              && ite(bytesEq(newEntry.PubKey, oldEntry.PubKey), len(diff[len(diff)-1].SigningKey) == 0, diff[len(diff)-1].SigningKey == newEntry.PubKey)
+//@              && !(newEntry.Power == oldEntry.Power && bytesEq(newEntry.PubKey, oldEntry.PubKey)))
+//@     before[a_new_participant_carries_its_full_power_and_key] !ok ==> len(diff) == len(prev(diff)) + 1 && diff[len(diff)-1].ParticipantID == newEntry.ID
+//@          && diff[len(diff)-1].PowerDelta == newEntry.Power && diff[len(diff)-1].SigningKey == newEntry.PubKey
+//@     before[a_matched_participant_is_not_reported_as_removed] ok ==> !has(oldPowerMap, newEntry.ID)
+//@   at loopback 3
+//@     before[a_vanished_participant_carries_its_negated_power_and_no_key] len(diff) == len(prev(diff)) + 1 && diff[len(diff)-1].ParticipantID == e.ID
+//@          && diff[len(diff)-1].PowerDelta == 0 - e.Power && len(diff[len(diff)-1].SigningKey) == 0
+//@     before[earlier_deltas_are_kept] forall(j, 0, len(prev(diff)), diff[j] == prev(diff)[j], trigger(diff[j]))
+//@   at SortFunc 1
+//@     before[the_collected_deltas_are_sorted] arg(0) == diff
+//@   at return 0
+//@     before[returns_the_sorted_deltas] arg(0) == diff && dominatedBy(SortFunc, 1)
+
+// The order the deltas are sorted by: participant id, ascending.
+//@ func MakePowerTableDiff$1
+//@   property C04 C03
+//@   modifies auto
+//@   ensures[orders_by_participant_id] (result < 0) == (a.ParticipantID < b.ParticipantID) && (result > 0) == (a.ParticipantID > b.ParticipantID)
+
+// Back from the map to a table: every entry of the map, once, then sorted into the canonical order.
+//@ func PowerTableMapToArray
+//@   property C04
+//@   modifies auto
+//@   maypanic
+//@   at loopback 1
+//@     before[every_map_entry_is_collected_once] len(pt) == len(prev(pt)) + 1 && pt[len(pt)-1] == pe && forall(j, 0, len(prev(pt)), pt[j] == prev(pt)[j], trigger(pt[j]))
+//@   at Sort 1
+//@     before[the_collected_entries_are_put_in_canonical_order] arg(0) == pt
+//@   at return 0
+//@     before[returns_the_sorted_table] arg(0) == pt && dominatedBy(Sort, 1)
